@@ -11,4 +11,11 @@ theorem tie_deploy_entry_points :
     skel "Router.DeployService" = ["r.findOrCreateService", "r.deployTargetsIntoService"] ∧
     skel "Router.SetRolloutTargets" = ["r.serviceForName", "r.deployTargetsIntoService"] := by decide
 
+/-- all targets of a deploy share one deadline: the per-target waits are started together (one goroutine each,
+    joined by a WaitGroup), each with a single timer — a sequential loop would restart the timeout at every target -/
+theorem tie_waits_fan_out :
+    chain (skel "LoadBalancer.WaitUntilHealthy") ["wg.Add", "go:target.WaitUntilHealthy", "wg.Wait"] = true ∧
+    countOf (skel "LoadBalancer.WaitUntilHealthy") "target.WaitUntilHealthy" = 0 ∧
+    countOf (skel "Target.WaitUntilHealthy") "time.After" = 1 := by decide
+
 end KamalProxy.C01
